@@ -298,7 +298,8 @@ def execute(binary, wd, name, scenario, targets, tamper_every=1):
     else:
         cmd = [binary, "tree", "--scenario", sp, "--out", tp, "--tab", tb, "--targets", ",".join(targets),
                "--tamper-every", str(tamper_every)]
-    rc, o = run(cmd, timeout=3600)
+    import hook
+    rc, o = run(cmd, timeout=3600, env={"ZEROKIT_VERIF_TRACE": hook.hook_env(wd, name)})     # hook H2 records next to the recorder
     if rc != 0:
         raise ToolError(f"harness failed ({rc}):\n{o[-3000:]}")
     return tp, tb
@@ -432,6 +433,8 @@ def run_property(prop, tier, out, binary=None):
     total_events = 0
     distinct = nontriv = 0
     traces_ok = 0
+    hook_judged = 0
+    import hook
     import time as _t
     for name, sc, targets in scenarios:
         _t0 = _t.time()
@@ -463,11 +466,26 @@ def run_property(prop, tier, out, binary=None):
                             "observed": {"next": r["obs"].get("next"), "empties": r["obs"].get("empties"),
                                          "leaves": r["obs"].get("leaves"), "root": r["obs"].get("root")}}, limit=4)
                 break
+        # the same execution as logged by the backends themselves (hook H2), validated with the model state carried
+        # through the whole trace (C07 is about proofs, which the hook does not log)
+        if prop != "C07":
+            hj, hl, _ = hook.judge_dir(prop, wd, name, os.path.join(wd, f"hook-{name}"), binary, kf_names, kf_desc, out,
+                                       "harness scenario " + name)
+            hook_judged += hj
+            if name == "tour-d2":
+                hneg = hook.negative_control(prop, wd, name, binary, kf_names)
+                if hneg is False:
+                    raise ToolError("negative control: the hook judge accepted a corrupted trace (binding broken)")
+                out.add(hook_negative_control_rejected=bool(hneg))
         if name == "tour-d2":
             neg = negative_control(prop, wd, name, tp, tb, kf_names, rnd)
             if neg is False:
                 raise ToolError("negative control: the judge accepted a corrupted trace (binding broken)")
             out.add(negative_control_rejected=bool(neg))
+    if prop != "C07":
+        hook.run_repo_tests(prop, tier, wd, binary, kf_names, kf_desc, out)
+        if hook_judged == 0:
+            raise ToolError("vacuity: no hook line was judged (hook H2 not compiled into the harness?)")
     out.add(evaluations=total_events, distinct_nontrivial=nontriv, distinct_cases=distinct,
             traces_validated_against_impl=traces_ok,
             rule="one evaluation = one API call on one backend with its full observation, judged as a step of "
